@@ -305,8 +305,9 @@ def _run_random_case(case, ctx):
                 want = M.m_map(lambda e: e.subs({target: M.MP.var("q7")}), pm)
             elif op == "align":
                 other_rows = case["rows2"]
-                other = numpoly.polynomial_from_attributes(other_rows, case["coefs2"], names=names)
-                om = M.wrap(M.MP.from_rows(names, other_rows, case["coefs2"]))
+                names2 = case.get("names2", names)
+                other = numpoly.polynomial_from_attributes(other_rows, case["coefs2"], names=names2)
+                om = M.wrap(M.MP.from_rows(names2, other_rows, case["coefs2"]))
                 x, y = numpoly.align_polynomials(poly, other)
                 for label, g, w in (("first", x, pm), ("second", y, om), ("sum", x + y, M.m_add(pm, om))):
                     problem = O.mismatch(g, w)
@@ -346,8 +347,9 @@ def _run_random_case(case, ctx):
             elif op == "pickle":
                 got, want = pickle.loads(pickle.dumps(poly, protocol=case["protocol"])), pm
             elif op == "arith":
-                other = numpoly.polynomial_from_attributes(case["rows2"], case["coefs2"], names=names)
-                om = M.wrap(M.MP.from_rows(names, case["rows2"], case["coefs2"]))
+                names2 = case.get("names2", names)
+                other = numpoly.polynomial_from_attributes(case["rows2"], case["coefs2"], names=names2)
+                om = M.wrap(M.MP.from_rows(names2, case["rows2"], case["coefs2"]))
                 got, want = poly - other + poly, M.m_add(M.m_sub(pm, om), pm)
             else:
                 raise ValueError(op)
@@ -368,6 +370,10 @@ def _run_random_case(case, ctx):
 def gen_random(rng):
     nn = rng.choice([1, 2, 3])
     names = [f"q{i}" for i in range(nn)]
+    if rng.random() < 0.25:
+        # indices whose string order differs from their numeric order
+        names = rng.choice([["q2", "q10"], ["q10"], ["q1", "q2", "q10"], ["q9", "q11"], ["q2"]])
+        nn = len(names)
     top = rng.choice([100, 300, 1000, 10000, 54999, 54999, 10 ** 5])
 
     def row():
@@ -430,6 +436,20 @@ def gen_random(rng):
             rows2[0] = list(rows[0])  # shared monomial must merge
         case["rows2"] = rows2
         case["coefs2"] = [rng.choice([1, 4, -3]) for _ in rows2]
+        if rng.random() < 0.35:
+            # the second operand mentions another set of indeterminates (subset, superset, disjoint)
+            pool = sorted(set(names) | {"q2", "q10", "q0"}, key=lambda n: int(n[1:]))
+            names2 = sorted(rng.sample(pool, rng.randint(1, min(3, len(pool)))),
+                            key=lambda n: int(n[1:]))
+            width = len(names2)
+            rows2 = []
+            while len(rows2) < rng.choice([1, 2]):
+                r = [rng.choice([0, 1, rng.randint(0, top), rng.randint(max(top - 5, 0), top)])
+                     for _ in range(width)]
+                if r not in rows2:
+                    rows2.append(r)
+            case["names2"], case["rows2"] = names2, rows2
+            case["coefs2"] = case["coefs2"][:len(rows2)] + [4] * (len(rows2) - len(case["coefs2"]))
     if op == "pickle":
         case["protocol"] = rng.choice([0, 2, 4, 5])
     return case
